@@ -150,7 +150,11 @@ type cbX struct {
 // callback sends one /callback over the real socket and projects the response.
 func (s *Site) callback(state, csrf string, send bool, email string, sc map[string]world.IdpAnswer, r *rand.Rand) (COut, *Concrete, cbX) {
 	s.IdP.Script(sc)
-	code := fmt.Sprintf("code-%d", r.Int63())
+	return s.callbackWith(fmt.Sprintf("code-%d", r.Int63()), state, csrf, send, email, sc, r)
+}
+
+// callbackWith sends /callback with the given code and leaves the identity provider's script alone.
+func (s *Site) callbackWith(code, state, csrf string, send bool, email string, sc map[string]world.IdpAnswer, r *rand.Rand) (COut, *Concrete, cbX) {
 	target := s.A.Path("callback") + "?code=" + code + "&state=" + url.QueryEscape(state)
 	conc := &Concrete{Target: target, State: state, Email: email, Script: sc}
 	req, err := http.NewRequest("GET", s.Srv.URL+target, nil)
